@@ -158,12 +158,14 @@ def build_reader(case, data, tmpdir, cls=AudioReader, record=None):
         th.start()
 
         def cleanup_fifo():
+            fd = None
             try:
-                fd = os.open(path, os.O_RDONLY | os.O_NONBLOCK)
-                os.close(fd)
+                fd = os.open(path, os.O_RDONLY | os.O_NONBLOCK)  # a reader exists until the writer is through (its data fits the pipe)
             except OSError:
                 pass
             th.join(5)
+            if fd is not None:
+                os.close(fd)
             sys.stdin = old_stdin
 
         try:
